@@ -1,7 +1,7 @@
 //verif:package github.com/kstenerud/go-concise-encoding/internal/verifh/c16
 //verif:config cap=300
 //verif:bounds histories of two or three documents on one instance; the earlier documents are templates (valid, aborted at any event index, invalid); the last is a template with symbolic payload; MaxDocumentSizeBytes / MaxObjectCount / MaxContainerDepth symbolic
-//verif:assume marshaler/unmarshaler sessions and their sync.Map type caches are outside reach (reflection); "same error" = same nil-ness
+//verif:assume "same error" = same nil-ness
 package c16
 
 import (
